@@ -557,8 +557,10 @@ def rule_forth_input(rep, fb, floor=10):
         if ok:
             g = guard[0]
             c = cexpr(g[1])
-            hi = bool(find_all((c,), lambda n: n[0] == "bin" and n[1] == "<" and n[2] == ("member", ("this",), "length_")))  # length_ < next
-            lo = f["name"] == "read" or bool(find_all((c,), lambda n: n[0] == "bin" and n[1] == "<" and n[3] == ("const", 0)))
+            # upper bound: `length_ < next`, or the overflow-safe `length_ - pos_ < num_bytes`
+            hi = bool(find_all((c,), lambda n: n[0] == "bin" and n[1] == "<" and (n[2] == ("member", ("this",), "length_") or (n[2][0] == "bin" and n[2][1] == "-" and n[2][2] == ("member", ("this",), "length_")))))
+            # lower bound: `next < 0`, or `num_bytes < -pos_` / `num_bytes < 0`
+            lo = f["name"] == "read" or bool(find_all((c,), lambda n: n[0] == "bin" and n[1] == "<" and (n[3] == ("const", 0) or (n[3][0] == "un" and "pos_" in repr(n[3])))))
             ok = hi and lo
             msg = "bounds test is not (new position > length_%s)" % ("" if f["name"] == "read" else " or new position < 0")
             # pos_ assignments: only in the else branch or after an exiting then-branch
